@@ -383,6 +383,16 @@ void WithKey(const JVal& op, F&& f)
 	// archives whose key API has `const char*` overloads (JSON, XML): string literal style key
 	if (op.HasMember("ks") && op.HasMember("kc") && op["kc"].GetBool()) { const std::string key = BytesFromJson(op["ks"]); f(key.c_str()); return; }
 #endif
+#ifdef VH_ARRAY_KEYS
+	// string literal keys as the compiler passes them: a reference to a char array (MsgPack compares them through operator==(T(&)[N]))
+	if (op.HasMember("ks") && op.HasMember("kc") && op["kc"].GetBool())
+	{
+		const std::string key = BytesFromJson(op["ks"]);
+		if (key.size() == 1) { const char lit[2] = { key[0], 0 }; f(lit); return; }
+		if (key.size() == 2) { const char lit[3] = { key[0], key[1], 0 }; f(lit); return; }
+		if (key.size() == 3) { const char lit[4] = { key[0], key[1], key[2], 0 }; f(lit); return; }
+	}
+#endif
 	if (op.HasMember("ks")) f(BytesFromJson(op["ks"]));
 	else if (op.HasMember("ki")) f(static_cast<int64_t>(op["ki"].GetInt64()));
 	else if (op.HasMember("ku")) f(static_cast<uint64_t>(op["ku"].GetUint64()));
@@ -489,7 +499,7 @@ void RunObjectOps(TArchive& archive, const JVal& opsArr, Log* log, TSelf* self, 
 					else if (op.HasMember("v")) FromCanon(op["v"], target);
 				}
 				bool loaded = false;
-				WithKey(op, [&](auto key) {
+				WithKey(op, [&](auto&& key) {
 					archive << BitSerializer::KeyValue(key, target, [&loaded](const T&, bool isLoaded) -> std::optional<std::string> { loaded = isLoaded; return std::nullopt; });
 				});
 				if constexpr (TArchive::IsLoading())
@@ -506,7 +516,7 @@ void RunObjectOps(TArchive& archive, const JVal& opsArr, Log* log, TSelf* self, 
 			Capture* cap = ActiveCapture();
 			if constexpr (!TArchive::IsLoading()) { if (cap && cap->replaying && !cap->opened.count(&op)) continue; }
 			if constexpr (TArchive::IsLoading()) log->Add("[\"open\"]");
-			WithKey(op, [&](auto key) {
+			WithKey(op, [&](auto&& key) {
 				archive << BitSerializer::KeyValue(key, child, [&loaded](const ScriptObj&, bool isLoaded) -> std::optional<std::string> { loaded = isLoaded; return std::nullopt; });
 			});
 			if constexpr (TArchive::IsLoading()) { log->Add(std::string("[\"close\",") + (loaded ? "true" : "false") + "]"); if (cap && cap->recording && loaded) cap->opened[&op] = true; }
@@ -518,7 +528,7 @@ void RunObjectOps(TArchive& archive, const JVal& opsArr, Log* log, TSelf* self, 
 			Capture* cap = ActiveCapture();
 			if constexpr (!TArchive::IsLoading()) { if (cap && cap->replaying && !cap->opened.count(&op)) continue; }
 			if constexpr (TArchive::IsLoading()) log->Add("[\"open\"]");
-			WithKey(op, [&](auto key) {
+			WithKey(op, [&](auto&& key) {
 				archive << BitSerializer::KeyValue(key, child, [&loaded](const ScriptArr&, bool isLoaded) -> std::optional<std::string> { loaded = isLoaded; return std::nullopt; });
 			});
 			if constexpr (TArchive::IsLoading()) { log->Add(std::string("[\"close\",") + (loaded ? "true" : "false") + "]"); if (cap && cap->recording && loaded) cap->opened[&op] = true; }
